@@ -2,6 +2,7 @@ package main
 
 import (
 	"fmt"
+	"go/constant"
 	"go/token"
 	"go/types"
 	"strings"
@@ -222,15 +223,10 @@ func checkDetectorResetRings(w *World, r *Report, d *detInfo, k *kernels, rule s
 						}
 					}
 				}
-			case *ssa.Store:
-				if fa, ok := x.Addr.(*ssa.FieldAddr); ok && isPtrTo(fa.X.Type(), d.T) {
-					if c, ok := x.Val.(*ssa.Const); ok && c.Value != nil && c.Int64() == 0 {
-						zeroed[fa.Field] = true
-					}
-				}
 			}
 		}
 	}
+	zeroed = zeroStoresOf(k.reset, d.T, 0)
 	r.Check(resetRings[cmp] && resetRings[dif], rule, "detector Reset resets the comparison ring and the diff ring", w.Pos(k.reset.Pos()), fmt.Sprint(resetRings))
 	return zeroed
 }
@@ -513,18 +509,7 @@ func propC15(w *World, r *Report) {
 			}
 		}
 		r.Check(okSeed, "A4", "the whole interior is seeded from the input when the background frame count is 1", w.Pos(k.updateBg.Pos()), seedGuard)
-		zero := false
-		for _, b := range k.reset.Blocks {
-			for _, in := range b.Instrs {
-				if st, ok := in.(*ssa.Store); ok {
-					if fa, ok := st.Addr.(*ssa.FieldAddr); ok && fa.Field == bgCount {
-						if c, ok := st.Val.(*ssa.Const); ok && c.Int64() == 0 {
-							zero = true
-						}
-					}
-				}
-			}
-		}
+		zero := zeroStoresOf(k.reset, d.T, 0)[bgCount]
 		r.Check(zero, "A4", "Reset zeroes the background frame count", w.Pos(k.reset.Pos()), "")
 	}
 	if mruns, err := getMotionRuns(w); err == nil {
@@ -585,16 +570,7 @@ func propC15(w *World, r *Report) {
 	}
 	r.Floor("A5", 3)
 	// A6
-	runs, err := getMotionRuns(w)
-	if err == nil {
-		me := newTermEnv(w)
-		for _, ev := range eventsOfKind(runs.fault, "sink:StartRecording", roleMotion) {
-			call := ev.Instr.(*ssa.Call)
-			a0, a1 := me.termOf(call.Call.Args[0]).String(), me.termOf(call.Call.Args[1]).String()
-			okA := strings.HasPrefix(a0, "motion.motionDetector."+d.fname("background")+"@") && strings.HasPrefix(a1, "motion.motionDetector."+d.fname("tempThresh")+"@")
-			r.Check(okA, "A6", "motion StartRecording receives the detector's background and current threshold", w.InstrPos(call), a0+" ; "+a1)
-		}
-	}
+	checkProcessorStartArgs(w, r, d, "A6")
 	r.Floor("A6", 1)
 	// with throttling active the motion sink is the ThrottledRecorder: it must hand the trigger's background
 	// and threshold to the file recorder, also when it re-opens a file in the middle of a trigger
@@ -703,3 +679,67 @@ func (d *detInfo) isInteriorMeanAccumulator(e *termEnv, v ssa.Value) (bool, stri
 }
 
 var _ = types.Typ
+
+// checkProcessorStartArgs: what the processor hands to StartRecording. Motion sink: the detector's background frame
+// and its current threshold, both read from the detector at the call; continuous and test sinks: that background and
+// threshold 0. (A cached pointer or value would go stale when the detector re-seeds or replaces them.)
+func checkProcessorStartArgs(w *World, r *Report, d *detInfo, rule string) {
+	runs, err := getMotionRuns(w)
+	if err != nil {
+		r.Unknown(rule, "processor start arguments", "-", err.Error())
+		return
+	}
+	me := newTermEnv(w)
+	bg := "motion.motionDetector." + d.fname("background") + "@"
+	th := "motion.motionDetector." + d.fname("tempThresh") + "@"
+	for role, rn := range runs.model.C.RoleNames {
+		for _, ev := range eventsOfKind(runs.fault, "sink:StartRecording", role) {
+			call := ev.Instr.(*ssa.Call)
+			a0, a1 := me.termOf(call.Call.Args[0]).String(), me.termOf(call.Call.Args[1]).String()
+			if role == roleMotion {
+				r.Check(strings.HasPrefix(a0, bg) && strings.HasPrefix(a1, th), rule, "motion StartRecording receives the detector's background and current threshold", w.InstrPos(call), a0+" ; "+a1)
+			} else {
+				r.Check(strings.HasPrefix(a0, bg) && a1 == "0", rule, rn+" StartRecording receives the detector's background and threshold 0", w.InstrPos(call), a0+" ; "+a1)
+			}
+		}
+	}
+}
+
+// zeroStoresOf: the receiver fields (of type T) that fn - or a method of T it calls unconditionally on the same
+// receiver, up to two levels deep - stores the constant 0 into on a block that executes on every call.
+func zeroStoresOf(fn *ssa.Function, T *types.Named, depth int) map[int]bool {
+	out := map[int]bool{}
+	if fn == nil || len(fn.Blocks) == 0 || depth > 2 {
+		return out
+	}
+	for _, b := range fn.Blocks {
+		// only blocks that every execution passes through: they dominate every returning block
+		always := true
+		for _, rb := range fn.Blocks {
+			if _, isRet := rb.Instrs[len(rb.Instrs)-1].(*ssa.Return); isRet && !b.Dominates(rb) {
+				always = false
+			}
+		}
+		if !always {
+			continue
+		}
+		for _, in := range b.Instrs {
+			switch x := in.(type) {
+			case *ssa.Store:
+				if fa, ok := x.Addr.(*ssa.FieldAddr); ok && isPtrTo(fa.X.Type(), T) && fa.X == ssa.Value(fn.Params[0]) {
+					if c, ok := x.Val.(*ssa.Const); ok && c.Value != nil && c.Value.Kind() == constant.Int && c.Int64() == 0 {
+						out[fa.Field] = true
+					}
+				}
+			case *ssa.Call:
+				callee := x.Call.StaticCallee()
+				if callee != nil && callee.Signature.Recv() != nil && isPtrTo(callee.Signature.Recv().Type(), T) && len(x.Call.Args) > 0 && x.Call.Args[0] == ssa.Value(fn.Params[0]) {
+					for fi := range zeroStoresOf(callee, T, depth+1) {
+						out[fi] = true
+					}
+				}
+			}
+		}
+	}
+	return out
+}
